@@ -222,9 +222,9 @@ func runC09(w *World, r *Report) {
 	ruleGuardedBy(w, r, "C09.guarded-by", guardedByExceptions, "compose", "schema", "internal", "callbacks", "flow", "components", "utils")
 
 	r.Rule("C09.atomic-consistent", "a field that is updated through sync/atomic somewhere is accessed only through sync/atomic", 1)
-	if n := ruleAtomicConsistent(w, r, "C09.atomic-consistent", "compose", "schema", "internal", "callbacks", "flow", "components", "utils"); n == 0 {
-		undecidedf("C09.atomic-consistent: no field accessed through sync/atomic found")
-	}
+	// (no field found at all is an anchor drift: the rule's floor of 1 reports it as UNDECIDED at the end, after the
+	// other rules have had their say)
+	ruleAtomicConsistent(w, r, "C09.atomic-consistent", "compose", "schema", "internal", "callbacks", "flow", "components", "utils")
 
 	r.Rule("C09.lock-released", "every path from a Lock / RLock to a return of the same function unlocks the mutex or has a deferred Unlock registered (a leaked lock blocks every other run using the object)", 5)
 	if n := ruleLockReleased(w, r, "C09.lock-released", map[string]string{}, "compose", "schema", "internal", "callbacks", "flow", "components", "utils"); n == 0 {
